@@ -197,6 +197,10 @@ impl Check for MatchCheck {
             }
             run.ops.push(pat_op(&p));
         }
+        // patterns made from e-nodes as the e-graph lists them (with the class's internal slot names)
+        for _ in 0..rng.range(0, 2) {
+            run.ops.push(Op::new("enode_pattern").i(rng.below(64) as i64).i(rng.below(8) as i64).i(rng.below(4) as i64));
+        }
         // a multi-pattern: root equation plus equations for some of its children
         for _ in 0..rng.range(1, 2) {
             let cands: Vec<&Tm> = terms.iter().filter(|t| !t.kids.is_empty()).collect();
@@ -212,8 +216,11 @@ impl Check for MatchCheck {
                 .kids
                 .iter()
                 .map(|k| {
-                    let v = next;
-                    next += 1;
+                    // sometimes an earlier variable again (non-linear root equation)
+                    let v = if next > 0 && rng.chance(1, 4) { rng.below(next as usize) as u32 } else { next };
+                    if v == next {
+                        next += 1;
+                    }
                     (k.binders.clone(), Pat::Var(v))
                 })
                 .collect();
@@ -294,6 +301,64 @@ impl Check for MatchCheck {
                             if p.is_harness() {
                                 panic!("harness panic: {} at {}", p.msg, p.loc);
                             }
+                            out.discarded = Some("panic_in_match".into());
+                            break;
+                        }
+                        Ok(Some(v)) => {
+                            out.violations.push(v);
+                            break;
+                        }
+                        Ok(None) => {}
+                    }
+                }
+                "enode_pattern" => {
+                    let r = catch_op(|| -> Option<Violation> {
+                        let ids = s.eg.ids();
+                        if ids.is_empty() {
+                            return None;
+                        }
+                        let id = ids[op.int(0).rem_euclid(ids.len() as i64) as usize];
+                        let mut ns: Vec<LS> = s.eg.enodes(id).into_iter().collect();
+                        ns.sort();
+                        let mut n = ns[op.int(1).rem_euclid(ns.len() as i64) as usize].clone();
+                        let nkids = n.applied_id_occurrences().len();
+                        for r in n.applied_id_occurrences_mut() {
+                            *r = AppliedId::null();
+                        }
+                        // rotate the slots the node mentions directly (a legal renaming of pattern slots)
+                        let mut sl: Vec<Slot> = n.all_slot_occurrences();
+                        sl.sort();
+                        sl.dedup();
+                        let rot = op.int(2).rem_euclid(4) as usize;
+                        if sl.len() >= 2 && rot > 0 {
+                            let m: std::collections::HashMap<Slot, Slot> = sl.iter().enumerate().map(|(i, x)| (*x, sl[(i + rot) % sl.len()])).collect();
+                            for x in n.all_slot_occurrences_mut() {
+                                *x = m[x];
+                            }
+                        }
+                        let cp: Pattern<LS> = Pattern::ENode(n, (0..nkids).map(|i| Pattern::PVar(pvar_name(i as u32))).collect());
+                        let fp0 = (state_hash(&s.eg), s.eg.total_number_of_nodes());
+                        let ms = ematch_all(&s.eg, &cp);
+                        let fp1 = (state_hash(&s.eg), s.eg.total_number_of_nodes());
+                        if fp0 != fp1 {
+                            return Some(viol("C05", "matching_modifies", format!("ematch_all({cp}) changed the fingerprint"), k));
+                        }
+                        out.count("enode_pattern_matches", ms.len() as u64);
+                        for m in &ms {
+                            for i in 0..nkids {
+                                if !m.contains_key(&pvar_name(i as u32)) {
+                                    return Some(viol("C05", "all_variables_bound", format!("ematch_all({cp}) returned {m:?}"), k));
+                                }
+                            }
+                            if let Err(e) = lookup_pattern(&cp, m, &s.eg) {
+                                return Some(viol("C05", "match_is_represented", format!("ematch_all({cp}) returned {m:?} but {e}"), k));
+                            }
+                            out.bump("substitutions_validated");
+                        }
+                        None
+                    });
+                    match r {
+                        Err(_) => {
                             out.discarded = Some("panic_in_match".into());
                             break;
                         }
